@@ -58,6 +58,9 @@ func init() {
 		"(*sync.RWMutex).RLock":                 noop,
 		"(*sync.RWMutex).RUnlock":               noop,
 		"runtime.KeepAlive":                     noop,
+		// the clock: every reading is instant zero (durations measured by the code under test are not observable in any property)
+		"time.runtimeNow":                       noop,
+		"time.runtimeNano":                      noop,
 		"internal/abi.NoEscape":                 identity,
 		"internal/abi.Escape[*strings.Builder]": identity,
 	}
